@@ -287,3 +287,16 @@ Proof.
       destruct (step_pc_idle _ _ _ _ Hpc Hr E) as [Hpc1 Hr1].
       apply (IH s1); auto. eapply cinv_step; eauto.
 Qed.
+
+(* non-vacuity: a complete run with a runner error and a closer error, a Close during the run and
+   one after it; Run and both Close calls return the join *)
+Example full_run :
+  exists s, run_c Fixed (new_cm false [Free (Some 5%Z)] [Some 9%Z])
+                  [CRunCas; CSetup; CInner RSpawn; CCloseBegin; CCloseStep 0;
+                   CInner (RRunnerReturn 1); CInner (RCollect 1); CInner (RRunnerReturn 0);
+                   CInner (RCollect 0); CInner RRunReturn; CClosing; CCloserStart 0;
+                   CCloserReturn 0; CCloseFatalCh; CCollectCloser 0; CRunReturn; CCloseStep 0;
+                   CCloseBegin; CCloseStep 1; CCloseStep 1] = Some s /\
+            c_pc s = CDone [5%Z; 9%Z] /\
+            closes s = [KRet [5%Z; 9%Z]; KRet [5%Z; 9%Z]].
+Proof. eexists. split; [vm_compute; reflexivity|]. split; reflexivity. Qed.
